@@ -386,6 +386,14 @@ type Clause struct {
 	Line  int
 }
 
+// wired LABEL: CALLEE[#n] arg K from SOURCE  - the K-th argument (0-based, receiver not counted) of the n-th call of CALLEE (suffix of
+// the callee's full name) is (the address of) a local variable whose only assignment is the result of a call of SOURCE
+type WiredClause struct {
+	Label, Callee, Source string
+	Nth, Arg              int
+	Line                  int
+}
+
 type FuncSpec struct {
 	Key        string // full function key
 	ParamNames []string
@@ -409,6 +417,9 @@ type FuncSpec struct {
 	CallSpec   map[string]string   // function-typed variable -> key of the (assumed) contract its calls use
 	Allow      map[string]bool
 	Unreach    []string
+	// structural: the function is not executed symbolically; only its `wired` clauses are checked, over the SSA data flow
+	Structural bool
+	Wired      []WiredClause
 	File       string
 	Line       int
 	Lib        bool
@@ -475,7 +486,7 @@ var topKeywords = map[string]bool{"sort": true, "type": true, "alias": true, "wo
 	"ghost": true, "lemma": true, "func": true, "global": true, "axiom": true, "uf": true, "extend": true}
 var subKeywords = map[string]bool{"ghostvar": true, "params": true, "pure": true, "def": true, "defsmt": true, "inline": true, "opaque": true, "trusted": true,
 	"fresh": true, "requires": true, "ensures": true, "modifies": true, "let": true, "loop": true, "use": true, "unfold": true,
-	"induction": true, "call": true, "allow": true, "unreachable": true, "reads": true, "nopanic": true, "maypanic": true, "out": true, "as": true,
+	"induction": true, "call": true, "allow": true, "unreachable": true, "structural": true, "wired": true, "reads": true, "nopanic": true, "maypanic": true, "out": true, "as": true,
 	"rawslice": true, "sameas": true, "dispatch": true, "model": true}
 
 // extractSpecText returns the contract text of a file: everything inside /*@ ... @*/ blocks,
@@ -977,6 +988,35 @@ func ParseSpecFile(path, src, pkgPath string) (*SpecFile, error) {
 			for _, a := range strings.Fields(c.rest) {
 				curF.Allow[a] = true
 			}
+		case "structural":
+			if curF == nil {
+				return nil, errf(c, "structural outside func")
+			}
+			curF.Structural = true
+		case "wired":
+			if curF == nil {
+				return nil, errf(c, "wired outside func")
+			}
+			// wired LABEL: CALLEE[#n] arg K from SOURCE
+			rest := strings.TrimSpace(c.rest)
+			k := strings.Index(rest, ":")
+			if k < 0 {
+				return nil, errf(c, "wired: expected `wired LABEL: CALLEE[#n] arg K from SOURCE`")
+			}
+			w := WiredClause{Label: strings.TrimSpace(rest[:k]), Nth: 1, Line: c.line}
+			f := strings.Fields(rest[k+1:])
+			if len(f) != 5 || f[1] != "arg" || f[3] != "from" {
+				return nil, errf(c, "wired: expected `wired LABEL: CALLEE[#n] arg K from SOURCE`")
+			}
+			w.Callee, w.Source = f[0], f[4]
+			if h := strings.Index(w.Callee, "#"); h >= 0 {
+				fmt.Sscanf(w.Callee[h+1:], "%d", &w.Nth)
+				w.Callee = w.Callee[:h]
+			}
+			if _, err := fmt.Sscanf(f[2], "%d", &w.Arg); err != nil {
+				return nil, errf(c, "wired: argument index %q", f[2])
+			}
+			curF.Wired = append(curF.Wired, w)
 		case "unreachable":
 			if curF == nil {
 				return nil, errf(c, "unreachable outside func")
